@@ -78,11 +78,31 @@ def pixel_kernels(fvn):
     return out
 
 
+NODATA_PARAMS = [AParam("img", VAL, 2), AParam("valid", INT, 2)]
+
+
+def nodata_kernel(fvn):
+    """`interpolate_nodata_sgm` of img_tools.py (the same module as its callee `find_valid_neighbors`)"""
+    mod = parse(SRC_FVN)
+    fn = find_function(mod, "interpolate_nodata_sgm")
+    check_njit(fn, SRC_FVN)
+    defs = [n for n in ast.walk(mod) if isinstance(n, (ast.FunctionDef, ast.ClassDef)) and n.name == "find_valid_neighbors"]
+    if len(defs) != 1 or defs[0] not in mod.body or defs[0].lineno != fvn.fn.lineno:
+        raise Unsupported(f"{SRC_FVN}: `find_valid_neighbors` is not defined exactly once at module level")
+    numpy_names, table = const_table(mod, SRC_FVN)
+    k = pyloops_ext.translate_copy_kernel(fn, "nodataSgmPx", NODATA_PARAMS, numpy_names=numpy_names, source_text=read_source(SRC_FVN),
+                                          consts=table, callees=[pyloops_ext.Callee("find_valid_neighbors", fvn)])
+    k.origin = f"{SRC_FVN}: interpolate_nodata_sgm"
+    k.fn = fn
+    return k
+
+
 def kernels():
     """-> {lean name: LoopKernel} read from the source tree now"""
     fvn = fvn_kernel()
     out = {"findValidNeighbors": fvn}
     out.update(pixel_kernels(fvn))
+    out["nodataSgmPx"] = nodata_kernel(fvn)
     return out
 
 
